@@ -35,6 +35,16 @@ Definition k3_bt2 (R_ D xd yd td x y : R) : R :=
   then td + (sqrt (l_od ^ 2 - R_ ^ 2) + R_ * k3_theta R_ xd yd x y + sqrt (l_op ^ 2 - R_ ^ 2)) / D
   else td + norm2 (x - xd) (y - yd) / D.
 
+(* 3-D: inert sphere, detonator at (xd, yd, zd); same formulas with 3-D norms and dot product *)
+Definition k3_theta3 (R_ xd yd zd x y z : R) : R :=
+  let l_op := norm3 x y z in let l_od := norm3 xd yd zd in
+  PI - acos (- (x * xd + y * yd + z * zd) / (l_od * l_op)) - acos (R_ / l_op) - acos (R_ / l_od).
+Definition k3_bt3 (R_ D xd yd zd td x y z : R) : R :=
+  let l_op := norm3 x y z in let l_od := norm3 xd yd zd in
+  if Rlt_dec 0 (k3_theta3 R_ xd yd zd x y z)
+  then td + (sqrt (l_od ^ 2 - R_ ^ 2) + R_ * k3_theta3 R_ xd yd zd x y z + sqrt (l_op ^ 2 - R_ ^ 2)) / D
+  else td + norm3 (x - xd) (y - yd) (z - zd) / D.
+
 (* ---- DSD cylindrical expansion *)
 Definition dsd_leg (r ra vd DCJ : R) : R := ((r - ra) + vd * ln ((r - vd) / (ra - vd))) / DCJ.
 Definition dsd_bt (r_1 r_2 D_CJ_1 D_CJ_2 alpha_1 alpha_2 t_d x y : R) : R :=
